@@ -586,12 +586,13 @@ func runC11(r *Result, d *drv.Driver, tier string, seed int64, replay string) {
 	c11AfterServeFailed(r)
 	c11HandshakeFailure(r)
 	c11HandshakePending(r)
+	c11DuringBackoff(r)
 	maxLen := 5
 	if tier == "thorough" {
 		maxLen = 7
 	}
 	r.Rule = fmt.Sprintf("exhaustive: every schedule up to length %d over {connection arrives and is served, request put in flight (handler blocked), handler released, client closes, Shutdown called, Shutdown landing between Accept returning and registration, context cancelled} that is a run of the Lean transition system; "+
-		"each is replayed on the real Server through an injected listener (Shutdown is called from inside Accept to place it deterministically), blocking handlers and a cancellable context; observed: Shutdown's and Serve's return values, sessions started / still open / connections closed late, and the order of Shutdown's return relative to session starts and ends. plus: Shutdown before Serve; Shutdown after Serve ended by itself on a permanent Accept error with sessions still open; Shutdown after the TLS handshake of an accepted connection failed (the connection must have been closed); Shutdown while the only session is still in (or before) its TLS handshake, which then completes and carries one request; Shutdown with a short context while a session sits inside the session-auth / request-auth callback or a handler. distinct = one per schedule; non-trivial = contains Shutdown", maxLen)
+		"each is replayed on the real Server through an injected listener (Shutdown is called from inside Accept to place it deterministically), blocking handlers and a cancellable context; observed: Shutdown's and Serve's return values, sessions started / still open / connections closed late, and the order of Shutdown's return relative to session starts and ends. plus: Shutdown before Serve; Shutdown after Serve ended by itself on a permanent Accept error with sessions still open; Shutdown after the TLS handshake of an accepted connection failed (the connection must have been closed); Shutdown while the only session is still in (or before) its TLS handshake, which then completes and carries one request; Shutdown during the back-off after 4 / 6 / 7 temporary Accept errors; Shutdown with a short context while a session sits inside the session-auth / request-auth callback or a handler. distinct = one per schedule; non-trivial = contains Shutdown", maxLen)
 	r.Exhaustive = true
 	alphabet := []string{"A", "Q", "R", "C", "S", "L", "X"}
 	var seqs [][]string
@@ -820,5 +821,45 @@ func c11HandshakePending(r *Result) {
 		case <-time.After(3 * time.Second):
 		}
 		r.Stats["handshake-pending-scenarios"]++
+	}
+}
+
+// c11DuringBackoff: Shutdown is called while the accept loop is sitting out the back-off after temporary Accept errors (the
+// listener has run out of file descriptors, say). "After Shutdown is called the listener is closed ... and Serve returns nil":
+// whatever the loop was doing when the signal came - here: sleeping, holding a stale temporary error - it ends in nil.
+func c11DuringBackoff(r *Result) {
+	for _, n := range []int{4, 6, 7} {
+		key := fmt.Sprintf("%d consecutive temporary Accept errors, then Shutdown about half-way through the back-off that follows the last one", n)
+		crumb("C11 " + key)
+		r.eval(key, true)
+		s := &kmip.Server{}
+		l := rec.NewListener()
+		for i := 0; i < n; i++ {
+			l.Push(rec.AcceptStep{Temporary: true})
+		}
+		init := make(chan struct{})
+		ret := make(chan error, 1)
+		go func() { ret <- s.Serve(l, init) }()
+		<-init
+		waitFor(func() bool { return l.Pending() == 0 }, 5*time.Second)
+		backoff := 5 * time.Millisecond << uint(n-1) // 5, 10, 20, ... ms: the delay after the n-th error
+		if backoff > time.Second {
+			backoff = time.Second
+		}
+		time.Sleep(backoff / 2)
+		ctx, cancel := context.WithTimeout(context.Background(), 5*time.Second)
+		sdErr := s.Shutdown(ctx)
+		cancel()
+		obs := fmt.Sprintf("shutdown=%v ", sdErr)
+		select {
+		case e := <-ret:
+			obs += fmt.Sprintf("serve=%v", e)
+		case <-time.After(4 * time.Second):
+			obs += "serve=still running 4 s after Shutdown returned"
+		}
+		if obs != "shutdown=<nil> serve=<nil>" {
+			r.find(Finding{Kind: "violation", What: "Serve did not return nil when Shutdown came during the back-off after temporary Accept errors", Input: key, Expect: "shutdown=<nil> serve=<nil>", Actual: obs})
+		}
+		r.Stats["shutdown-during-backoff-scenarios"]++
 	}
 }
